@@ -73,8 +73,8 @@ Definition arg_matched (hdrs : table) (kv : bytes * value) : Prop :=
 Inductive xmode := XAll | XAny.
 
 Definition spec_mode (args : table) : xmode :=
-  match lookup [120; 45; 109; 97; 116; 99; 104] args with
-  | Some (VStr [97; 110; 121]) => XAny
+  match lookup [120; 45; 109; 97; 116; 99; 104] args with        (* x-match *)
+  | Some (VStr s) => if bytes_eqb s [97; 110; 121] then XAny else XAll   (* any *)
   | _ => XAll
   end.
 
@@ -117,3 +117,25 @@ Definition publish_spec (S : name -> Prop) (mandatory : bool) (acts : list pub_a
   (forall q, ~ S q -> pushes_to q acts = 0%nat) /\
   ((exists q, S q) -> ~ In PReturn acts) /\
   ((forall q, ~ S q) -> (In PReturn acts <-> mandatory = true) /\ In PConfirm acts).
+
+(* ------------------------------------------------------------------ link to the code's facts *)
+From GMQ Require Import Route.Cfg.
+
+(* the exchange kind a type id of the code stands for *)
+Definition kind_of (c : route_cfg) (ty : N) : option ex_kind :=
+  if N.eqb ty (c_direct c) then Some KDirect
+  else if N.eqb ty (c_fanout c) then Some KFanout
+  else if N.eqb ty (c_topic c) then Some KTopic
+  else if N.eqb ty (c_headers c) then Some KHeaders
+  else None.
+
+Definition is_topic_kind (k : ex_kind) : bool := match k with KTopic => true | _ => false end.
+
+(* the bindings of an exchange are results of NewBinding, made as queueBind makes them *)
+Definition binding_wf (c : route_cfg) (k : ex_kind) (b : binding) : Prop :=
+  new_binding c (b_queue b) (b_exchange b) (b_key b) (b_args b) (is_topic_kind k) = Some b.
+
+(* trigger of finding F50: the message has no headers table at all and the binding has an
+   argument table without any argument to match *)
+Definition no_f50 (m : message_view) (b : binding) : Prop :=
+  m_headers m = None -> forall t, b_args b = Some t -> match_args t <> [].
